@@ -68,7 +68,9 @@ def make_case(args):
         rng.shuffle(dims)
         da = da.transpose(*dims)
     lead = [d for d in da.dims if d not in ("freq", "dir")]
+    strided32 = False
     if lead and rng.random() < 0.3:
+        strided32 = True
         # float32 data whose spectral dimensions are the SLOWEST in memory (an array assembled as (freq, dir, time…) and viewed in
         # the dataset's dimension order): the (freq, dir) block of one position is a strided view that needs no dtype conversion
         order = ["freq", "dir"] + lead
@@ -95,6 +97,12 @@ def make_case(args):
     C["celerity_dpt"] = lambda da, aux: da.spec.celerity(depth=aux["dpt"])
     C["wavelen_dpt"] = lambda da, aux: da.spec.wavelen(depth=aux["dpt"])
     opnames = rng.sample(sorted(C), 7) + rng.sample(["mss_dpt", "uss_dpt", "celerity_dpt", "wavelen_dpt", "ptm4"], 2)
+    if strided32:
+        # this layout is aimed at what reaches the native routine and the masks; statistics whose NaN status hangs on a float32
+        # radicand a few ulp from zero (dspr, dpspr, sw, gw …) may legitimately differ between two evaluation orders of the same
+        # float32 sums, so they are not compared here (false alarm at seed 3, DESIGN §11)
+        pool = sorted(n for n in C if n in opcat.WATERSHED or n in ("ptm4", "ptm5", "bbox", "split", "split_dir", "to_energy", "oned", "hs"))
+        opnames = rng.sample(pool, min(7, len(pool)))
     positions = [dict(zip(lead, idx)) for idx in np.ndindex(*[da.sizes[d] for d in lead])]
     out = []
     # perturbation: replace the spectrum at one position
